@@ -27,6 +27,8 @@ type Req struct {
 	PtyCols  int      `json:"pty_cols,omitempty"`
 	PtyRows  int      `json:"pty_rows,omitempty"`
 	Observe  bool     `json:"observe,omitempty"`
+	// StdoutTo: spawned runs only - stdout is this file (e.g. /dev/full: every write fails) instead of a pipe
+	StdoutTo string `json:"stdout_to,omitempty"`
 }
 
 type Res struct {
@@ -117,6 +119,14 @@ func (s Spawn) Run(r Req) Res {
 	}
 	var o, e bytes.Buffer
 	cmd.Stdout, cmd.Stderr = &o, &e
+	if r.StdoutTo != "" {
+		f, err := os.OpenFile(r.StdoutTo, os.O_WRONLY, 0)
+		if err != nil {
+			return Res{Err: []byte("spawn: " + err.Error()), Exit: 99}
+		}
+		defer f.Close()
+		cmd.Stdout = f
+	}
 	done := make(chan error, 1)
 	if err := cmd.Start(); err != nil {
 		return Res{Err: []byte("spawn: " + err.Error()), Exit: 99}
